@@ -23,9 +23,9 @@ import (
 
 // What the documentation of a function says about overlapping buffers.
 const (
-	docExactOrNone = iota // "must overlap entirely or not at all" / cipher.AEAD: dst = in[:0] or no overlap; the function checks
-	docNone               // "must not overlap"; the function checks (nacl)
-	docExactNoCheck       // "must overlap entirely or not at all", no check promised or made (salsa low level): only exact/disjoint are presented
+	docExactOrNone  = iota // "must overlap entirely or not at all" / cipher.AEAD: dst = in[:0] or no overlap; the function checks
+	docNone                // "must not overlap"; the function checks (nacl)
+	docExactNoCheck        // "must overlap entirely or not at all", no check promised or made (salsa low level): only exact/disjoint are presented
 )
 
 // c53inst is one prepared function instance for a payload length.
@@ -512,6 +512,9 @@ func TestC53(t *testing.T) {
 			present(2000, 0, 0, false, 0, 0, "far")
 		}
 	})
+	if m.Get("forbidden_overlap_failed_closed") > 0 {
+		m.Note("observed (accepted, not a violation): an Open-type function returned its authentication error, without panic, for an authentic input presented with a forbidden overlap; see the forbidden_overlap_failed_closed:<function> counters (asm AEAD Open with dst overlapping only the tag: the assembly writes the plaintext before it compares the tag, and the alias check excludes the tag bytes)")
+	}
 	nAEAD := 4 // Seal/Open x chacha/xchacha per path
 	for _, p := range []string{"asm", "generic", "purego"} {
 		m.Gate(p+"_exact_calls", nAEAD*len(c53Lens)*2, "AEAD in-place calls (dst = in[:0]) on the "+p+" path")
